@@ -94,6 +94,20 @@ def pa_pred(ls, a, n):
             a, n, r, want)
       if not 0 <= r < n:
         return 'result %d outside [0, n)' % r
+    else:
+      # n < 0 (theorems C19Shipped.pseudoAverage_range_neg / _neg_max_variance): result in
+      # (n, 0]; the chosen prefix shift has MAXIMAL variance
+      if not n < r <= 0:
+        return 'n < 0: result %d outside (n, 0]' % r
+      s = sorted(a)
+      m = len(s)
+      vs = [m * sum(y * y for y in bb) - sum(bb) ** 2
+            for bb in ([y + n for y in s[:j]] + s[j:] for j in range(m + 1))]
+      j = vs.index(max(vs))
+      want = (sum(s) + n * j + m // 2) // m % n
+      if r != want:
+        return 'n < 0: PseudoAverage(%r, %d) = %d, first max-variance prefix shift gives %d' % (
+            a, n, r, want)
     return None
   return pred
 
@@ -147,7 +161,7 @@ def corr_pseudoavg(rep, rng, tier, ls):
     r = call(H, ls.PseudoAverage, list(a), n)
     b.add('lat.pseudoavg %s %s' % (L(a), H(n)), r,
           tag=tag + (':err' if r.startswith('err') else ''), pred=pa_pred(ls, a, n),
-          nontrivial=len(a) > 1)
+          nontrivial=len(a) > 1, always=(n <= 0))
     # model's diff_j / best_j against the definition (variance differences), n > 0
     if n > 0 and a and (tag != 'exh' or len(a) == 4):
       _, vs, j = pa_definition(a, n)
@@ -216,7 +230,21 @@ def corr_bias(rep, rng, tier, ls):
 
   def pred_for(sample, n, tr):
     def pred():
-      if n <= 0:
+      if n == 0:
+        s, _ = run(sample, n, tr)
+        return None if s == 'err ZeroDivisionError' else 'Bias with n = 0: %s' % s
+      if n < 0:
+        # theorems C19Shipped.bias_term_neg / bias_normalized_range_neg: every summand in
+        # [n, n/2], normalized in [len, 2 len], p-value 1.0 for len > 0
+        s, p = run(sample, n, tr)
+        if s.startswith('err'):
+          return 'Bias raised ' + s
+        t = int(s.split()[1].replace('-', '-0x') if s.split()[1].startswith('-') else '0x' + s.split()[1], 16)
+        ln = len(sample) * len(tr)
+        if not (ln * n <= t and 2 * t <= ln * n):
+          return 'n < 0: t = %d outside [len*n, len*n/2]' % t
+        if ln > 0 and p != 1.0:
+          return 'n < 0: p-value %r != 1.0' % (p,)
         return None
       s, p = run(sample, n, tr)
       if s.startswith('err'):
@@ -267,7 +295,7 @@ def corr_bias(rep, rng, tier, ls):
     s, _ = run(sample, n, tr)
     b.add('lat.bias_t %s %s %s %s' % (L(sample), H(n), L([a for a, _ in tr]), L([c for _, c in tr])),
           s, tag=tag + (':err' if s.startswith('err') else ''), pred=pred_for(sample, n, tr),
-          nontrivial=bool(sample and tr))
+          nontrivial=bool(sample and tr), always=(n <= 0))
   rep.absorb(b, b.run())
 
 
@@ -580,6 +608,36 @@ def mpeval(rows, roots):
   return t
 
 
+PLANTED_ROOT_GATE = (
+    'n = p*q, p and q random primes of `bits` bits. '
+    'univariate_modp(f, 2^ub, k), k in {2,3}, 64 <= bits <= 1024, f in {p0 + x (high bits known), '
+    'p + rx - x (negative coefficient), x*2^l + (p mod 2^l) (low bits known)} and the cubic '
+    'p - rx^3 + x^3 with bound 2^max(2, ub//4): gated iff ub <= floor((k-1)*bits/(2k-1)) - 2 '
+    '(the determinant bound of the 2k-dimensional lattice is X < p^((k-1)/(2k-1)); 2 bits of margin). '
+    'multivariate_modp(p0 + x1*2^l + x2, [2^u1, 2^u2], m), |u1-u2| <= 1, 64 <= bits <= 1024: gated iff '
+    '(m = 3 and u1+u2 <= floor(3*bits/16) - 3) or (m = 4 and u1+u2 <= floor(bits/4) - 3). '
+    'multivariate_modn((p0+x1)(q0+x2), [2^u1, 2^u2], 1), |u1-u2| <= 1, 64 <= bits <= 256: gated iff '
+    'u1+u2 <= floor(2*bits/3) - 10. '
+    'Measured before gating (harness-independent seeds, real LLL / solve_right / sympy): every '
+    'quick-tier gated family 2000/2000 found, every thorough-tier gated family 500/500 (or 2000/2000) '
+    'found (harness/measure_small_roots.py); at margin 0 or 1 bit success drops to 52..99.8 %, one bit beyond to 0..85 %, '
+    'so the region is sharp. A miss inside the region is reported as a failing input.')
+
+
+def uni_gate(bits, ub, k):
+  return k in (2, 3) and 64 <= bits <= 1024 and ub <= (k - 1) * bits // (2 * k - 1) - 2
+
+
+def modp_gate(bits, u1, u2, m):
+  tot = u1 + u2
+  return (abs(u1 - u2) <= 1 and 64 <= bits <= 1024 and
+          ((m == 3 and tot <= 3 * bits // 16 - 3) or (m == 4 and tot <= bits // 4 - 3)))
+
+
+def modn_gate(bits, u1, u2, m):
+  return m == 1 and abs(u1 - u2) <= 1 and 64 <= bits <= 256 and u1 + u2 <= 2 * bits // 3 - 10
+
+
 def corr_small_roots(rep, rng, tier):
   import sympy
   from paranoid_crypto.lib import small_roots as sr
@@ -590,17 +648,28 @@ def corr_small_roots(rep, rng, tier):
   sfx = '_r' if repaired else ''
   rep.extra['small_roots_guard_variant'] = 'repaired' if repaired else 'pinned'
   stats = {}
+  gate = dict(runs=0, misses=[], families=set())
 
-  def stat(fam, ok):
-    a = stats.setdefault(fam, [0, 0])
+  def stat(fam, ok, gated=False, replay=None):
+    """planted-root bookkeeping.  `gated`: the instance lies in PLANTED_ROOT_GATE (region in
+    which the real finder recovered the planted root in every one of >= 2000 measured
+    instances per family): a miss there is reported as a failing input of the property
+    ("do find the planted root ... below the documented bound with margin"); outside the
+    region the count is statistics only."""
+    a = stats.setdefault(fam + (':gated' if gated else ':stat'), [0, 0])
     a[1] += 1
     a[0] += 1 if ok else 0
+    if gated:
+      gate['runs'] += 1
+      gate['families'].add(fam)
+      if not ok:
+        gate['misses'].append(dict(family=fam, **(replay or {})))
   d9 = []    # accepted candidates that are a root modulo no prime factor of n
 
   bg = Batch('sr.guard_uni')
   bt = Batch('sr.uni_tail')
 
-  def uni_case(f, n, p, q, bnd, k, tag, planted=None, fam=None):
+  def uni_case(f, n, p, q, bnd, k, tag, planted=None, fam=None, gated=False):
     """one run of the real univariate_modp (whatever small_roots.lll.reduce currently is)."""
     coeffs = uni_coeffs(f)
     (st, r), rec = run_traced(sr.univariate_modp, GUARD_P, ['rx', 'y'], f, bnd, k)
@@ -611,7 +680,9 @@ def corr_small_roots(rep, rng, tier):
       rec = rec + [dict(rx=res, y=f(res))]     # guard line not traced: use the returned root
     cands = [int(c['rx']) for c in rec]
     if fam:
-      stat(fam, r is not None and int(r) == planted)
+      stat(fam, r is not None and int(r) == planted, gated,
+           dict(fn='univariate_modp', p=p, q=q, coeffs=coeffs, b=bnd, k=k, planted=planted,
+                returned=None if r is None else int(r)))
 
     def pred(f=f, bnd=bnd, k=k, p=p, q=q, coeffs=coeffs, red=sr.lll.reduce):
       keep = sr.lll.reduce
@@ -644,33 +715,38 @@ def corr_small_roots(rep, rng, tier):
   real_reduce = sr.lll.reduce
   try:
     # --- pass 1: planted roots, real LLL (families of small_roots_test.py, scaled down)
-    sizes = [(64, 20, 2), (64, 24, 3), (96, 30, 2), (128, 50, 3), (256, 100, 3),
+    # gated (margin >= 2 bits below the lattice bound, see PLANTED_ROOT_GATE), margin 0/1
+    # (statistics), and beyond the bound (statistics; test file: 400/1024 works with k=3,
+    # 480/1024 does not)
+    sizes = [(64, 19, 2), (64, 20, 2), (64, 23, 3), (64, 24, 3), (96, 30, 2), (128, 40, 2),
+             (128, 49, 3), (128, 50, 3), (256, 100, 3), (64, 21, 2), (128, 51, 3),
              (64, 31, 3), (128, 62, 2)]
     if tier == 'thorough':
-      sizes += [(512, 200, 3), (1024, 400, 3), (1024, 480, 3)]
+      sizes += [(512, 200, 3), (512, 202, 3), (1024, 400, 3), (1024, 407, 3), (1024, 480, 3)]
     for bits, ub, k in sizes:
       for _ in range(2 if tier == 'quick' else 6):
         p, q = rprime(rng, bits), rprime(rng, bits)
         n = p * q
         bnd = 2 ** ub
-        within = 'in' if ub / bits <= 0.4 else 'beyond'   # test file: 400/1024 works with k=3, 480/1024 does not
+        g = uni_gate(bits, ub, k)
+        within = 'k%d-%dbit-ub%d' % (k, bits, ub)
         # high bits known
         p0 = (p >> ub) << ub
         uni_case(sympy.Poly(p0 + x, modulus=n), n, p, q, bnd, k, 'real:high', p - p0,
-                 'uni-high-%s' % within)
+                 'uni-high-%s' % within, g)
         # negative root
         rx = rng.randrange(1, bnd)
         uni_case(sympy.Poly(p + rx - x, modulus=n), n, p, q, bnd, k, 'real:neg', rx,
-                 'uni-neg-%s' % within)
+                 'uni-neg-%s' % within, g)
         # low bits known
         l = bits - ub
         uni_case(sympy.Poly(x * 2 ** l + p % 2 ** l, modulus=n), n, p, q, bnd, k, 'real:low',
-                 p >> l, 'uni-low-%s' % within)
+                 p >> l, 'uni-low-%s' % within, g)
         # higher degree
         ub3 = max(2, ub // 4)
         rx = rng.randrange(1, 2 ** ub3)
         uni_case(sympy.Poly(p - rx ** 3 + x ** 3, modulus=n), n, p, q, 2 ** ub3, k, 'real:deg3', rx,
-                 'uni-deg3-%s' % within)
+                 'uni-deg3-%s' % within, g)
     # --- small moduli, real LLL: garbage candidates (non-linear factors) reach the guard
     primes = list(sympy.primerange(3, 80))
     for _ in range(250 if tier == 'quick' else 2500):
@@ -758,13 +834,18 @@ def corr_small_roots(rep, rng, tier):
   # --- multivariate_modp
   bm = Batch('sr.guard_multi')
 
-  def multi_case(f, n, p, q, bounds, m, tag, planted=None, fam=None):
+  def multi_case(f, n, p, q, bounds, m, tag, planted=None, fam=None, gated=False):
     rows = mono_rows(f)
     (st, r), rec = run_traced(sr.multivariate_modp, GUARD_P, ['roots', 'y'], f, bounds, m)
     if st == 'err':
+      if fam:
+        stat(fam, False, gated, dict(fn='multivariate_modp', p=p, q=q, monomials=rows,
+                                     bounds=bounds, m=m, planted=planted, returned='raised %s' % r))
       return None
     if fam:
-      stat(fam, r is not None and [int(v) for v in r] == planted)
+      stat(fam, r is not None and [int(v) for v in r] == planted, gated,
+           dict(fn='multivariate_modp', p=p, q=q, monomials=rows, bounds=bounds, m=m,
+                planted=planted, returned=None if r is None else [int(v) for v in r]))
     res = None if r is None else [int(v) for v in r]
     if res is not None and (not rec or [int(v) for v in rec[-1]['roots']] != res):
       rec = rec + [dict(roots=res, y=int(f(*res)))]
@@ -791,9 +872,17 @@ def corr_small_roots(rep, rng, tier):
 
   real_solve = sr.linalg_util.solve_right
   try:
-    fams = [(128, (8, 8), 3), (128, (10, 10), 3), (128, (6, 6), 2)]
+    # The former family (128, (6, 6), 2) is gone: with m = 2 (6 x 5 linearised system) the
+    # real multivariate_modp returned None on 0 of 1500 planted instances at any bound
+    # (measured: (128,(1,1)), (128,(3,3)), (128,(6,6)), (64,(2,2)), 300 seeds each) — m = 2 can
+    # never succeed, so it said nothing about "finds the planted root" (noted in evidence).
+    # gated: m = 3 / m = 4 with >= 3 bits of margin; (128,(12,12),3) margin 0 and
+    # (128,(13,13),3) beyond the bound are statistics.
+    fams = [(128, (8, 8), 3), (128, (10, 10), 3), (128, (10, 11), 3), (64, (4, 5), 3),
+            (128, (14, 14), 4), (128, (12, 12), 3), (128, (13, 13), 3)]
     if tier == 'thorough':
-      fams += [(256, (24, 24), 4), (512, (50, 50), 4), (1024, (120, 120), 4)]
+      fams += [(256, (22, 23), 3), (128, (14, 15), 4), (256, (24, 24), 4), (512, (50, 50), 4),
+               (1024, (120, 120), 4)]
     for bits, (u1, u2), m in fams:
       for _ in range(2 if tier == 'quick' else 4):
         p, q = rprime(rng, bits), rprime(rng, bits)
@@ -803,7 +892,8 @@ def corr_small_roots(rep, rng, tier):
         p0 = ((p >> u2) % 2 ** known) << u2
         f = sympy.Poly(p0 + x1 * 2 ** lx1 + x2, modulus=n)
         multi_case(f, n, p, q, [2 ** u1, 2 ** u2], m, 'real', [p >> lx1, p % 2 ** u2],
-                   'modp-bivariate-m%d-%dbit-unknown-%d' % (m, bits, u1 + u2))
+                   'modp-bivariate-m%d-%dbit-unknown-%d' % (m, bits, u1 + u2),
+                   modp_gate(bits, u1, u2, m))
     # adversarial solve_right: first learn which solution index feeds which variable
     for _ in range(6 if tier == 'quick' else 40):
       bits = rng.choice([32, 64])
@@ -846,15 +936,20 @@ def corr_small_roots(rep, rng, tier):
   bng = Batch('sr.guard_modn')
   nonint = 0
 
-  def modn_case(f, n, bounds, m, tag, planted=None, fam=None):
+  def modn_case(f, n, bounds, m, tag, planted=None, fam=None, gated=False):
     nonlocal nonint
     rows = mono_rows(f)
     (st, r), rec = run_traced(sr.multivariate_modn, GUARD_N, ['roots'], f, bounds, m)
     if st == 'err':
       rep.notes.append('multivariate_modn raised %s (%s)' % (r, tag))
+      if fam:
+        stat(fam, False, gated, dict(fn='multivariate_modn', n=n, monomials=rows, bounds=bounds,
+                                     m=m, planted=planted, returned='raised %s' % r))
       return
     if fam:
-      stat(fam, r is not None and [int(v) for v in r] == planted)
+      stat(fam, r is not None and [int(v) for v in r] == planted, gated,
+           dict(fn='multivariate_modn', n=n, monomials=rows, bounds=bounds, m=m, planted=planted,
+                returned=None if r is None else [int(v) for v in r]))
     cands = []
     for c in rec:
       try:
@@ -884,9 +979,12 @@ def corr_small_roots(rep, rng, tier):
 
   real_sympy_solve = sympy.solve
   try:
-    fams = [(64, (16, 16), 1), (64, (20, 20), 1), (128, (40, 40), 1), (64, (30, 30), 1)]
+    # gated: m = 1, u1 + u2 <= 2*bits/3 - 10; the others are statistics (margin < 10 bits or
+    # beyond the bound bits/3 per unknown)
+    fams = [(64, (16, 16), 1), (96, (27, 27), 1), (128, (37, 38), 1), (64, (20, 20), 1),
+            (128, (40, 40), 1), (64, (30, 30), 1)]
     if tier == 'thorough':
-      fams += [(64, (24, 24), 2), (512, (170, 170), 1), (1024, (340, 340), 1)]
+      fams += [(256, (80, 80), 1), (64, (24, 24), 2), (512, (170, 170), 1), (1024, (340, 340), 1)]
     for bits, (u1, u2), m in fams:
       for _ in range(2 if tier == 'quick' else 5):
         p, q = rprime(rng, bits), rprime(rng, bits)
@@ -895,7 +993,8 @@ def corr_small_roots(rep, rng, tier):
         q0 = (q >> u2) << u2
         f = sympy.Poly((p0 + x1) * (q0 + x2), modulus=n)
         modn_case(f, n, [2 ** u1, 2 ** u2], m, 'real', [p - p0, q - q0],
-                  'modn-bivariate-m%d-%dbit-unknown-%d' % (m, bits, u1 + u2))
+                  'modn-bivariate-m%d-%dbit-unknown-%d' % (m, bits, u1 + u2),
+                  modn_gate(bits, u1, u2, m))
         # adversarial sympy.solve: wrong candidates first, then (sometimes) a true root
         cands = []
         for _ in range(rng.randrange(0, 3)):
@@ -924,6 +1023,19 @@ def corr_small_roots(rep, rng, tier):
   rep.absorb(bng, bng.run())
 
   rep.extra['planted_root_found'] = {k: '%d/%d' % tuple(v) for k, v in sorted(stats.items())}
+  rep.extra['planted_root_gate'] = dict(
+      region=PLANTED_ROOT_GATE, gated_runs=gate['runs'], gated_misses=len(gate['misses']),
+      gated_families=sorted(gate['families']),
+      outside='families tagged :stat in planted_root_found are statistics only (margin below '
+              'the gate or beyond the lattice bound)',
+      m2='multivariate_modp with m = 2 never finds a planted root (0/1500 measured): dropped '
+         'from the planted-root families')
+  for miss in gate['misses']:
+    rep.violations.append(dict(
+        op='sr.planted_root', line='%s %s' % (miss['fn'], miss['family']),
+        what='planted small root NOT found inside the gated region (%s): %s planted=%r returned=%r'
+             % (miss['family'], miss['fn'], miss.get('planted'), miss.get('returned')),
+        impl=repr(miss.get('returned')), model=repr(miss.get('planted')), info=miss))
   rep.extra['small_roots_false_roots_accepted'] = dict(count=len(d9), examples=d9[:6])
   if nonint:
     rep.notes.append('multivariate_modn: %d runs skipped (sympy.solve returned non-integer '
